@@ -13,7 +13,8 @@ var c09SyncState = regexp.MustCompile(`server\.\(\*Dataset\)\.(StartFullSync|Sta
 
 func init() {
 	plans["C09"] = Plan{Prop: "C09", Level: "exploration",
-		Rule: "seeded histories (9-20 ops; 30% open with one of 8 directed orders, then a random walk) over one dataset of HTTP start/batch/end requests (matching, foreign, missing sync id — also id-less starts and ends) through the real echo router and handler, POST /transactions writes into the dataset (real handler, Store.ExecuteTransaction), " +
+		Rule: "seeded histories (9-20 ops; 30% open with one of 9 directed orders, then a random walk) over one dataset of HTTP start/batch/end requests (matching, foreign, missing sync id — also id-less starts and ends) through the real echo router and handler, POST /transactions writes into the dataset (real handler, Store.ExecuteTransaction), " +
+			"end requests whose request context is cancelled before the request or at ds.completeFullSync.begin (client gone / timed out; HTTP and job), sleeps of 3.2 lease timeouts after such a failed end, " +
 			"job-style StartFullSync/StoreEntities/CompleteFullSync calls (what jobs.datasetSink does), header-less writes, writes of an incremental job, sleeps past the lease (100-200 ms) " +
 			"and groups of concurrent requests; 60% of the cases stretch ds.lease.afterDone / web.fullsync.beforeRelease / ds.completeFullSync.begin. " +
 			"The feed is read before and after every op and after a final sleep; verdicts key on status codes and feed contents only. " +
@@ -26,6 +27,7 @@ func init() {
 			"a write answered 200 that ran concurrently with a completing end may be ordered before or after the completion: its entities may get at most one tombstone and must be live afterwards",
 			"race-detector blocks decide only when one side is a runtime map access (the normal runtime kills the process on those); other blocks on the sync state are reported as counters",
 			"an HTTP end request can only be the end of an HTTP sync: answered 200 while a job-driven sync is the current one it is a violation (HEAD answers 410)",
+			"an HTTP sync whose own end request was refused with 5xx is not completed; a retry that the hub answers 200 is judged by the completion rule. Once the HISTORY has ordered sleeps of >= 3 lease timeouts after the refusal with no accepted request of that sync in between, the sync must be dead (a non-matching write answered 409 or a late end answered 200 is a violation). This is the only verdict that uses a duration, and it is the requested sleep of the history (a lower bound of the real wait), never a measured time",
 			"a transaction carries no sync id; answered 200 it is a write into the dataset and counts as written since the start of whatever sync is running",
 			"the body of a refused (410/5xx) end request issued inside another sync may or may not have been stored: its entities may get at most one tombstone when that sync completes",
 		},
